@@ -113,6 +113,30 @@ def run(ctx):
     for cfg in cfgs:
         for t in singles:
             cases += concretise(t, cfg, 4 if quick else 12)
+    # every distinct kind of voucher-level forgery at least once (by the sequence of steps with their
+    # fields and entry positions), not only a sample per class: a check that is missing for one entry
+    # position or one field only is otherwise a matter of luck
+    def feats(ops):
+        return sorted(set(json.dumps(o, sort_keys=True) for o in ops))
+    nstrat = 0
+    for t in singles:
+        vat = [a for a in t["atoms"] if a.startswith("v_")]
+        if not vat:
+            continue
+        opts = sorted(classes.get((vat[0], t["n"]), []), key=len)
+        covered = set()
+        for ops in opts:
+            fs = feats(ops)
+            want = set(fs) | set((a, b) for i, a in enumerate(fs) for b in fs[i + 1:])
+            if quick and want <= covered:
+                continue        # quick: every step and every pair of steps that occur together, once
+            covered |= want
+            c = dict(t)
+            c["cfg"] = cfgs[nstrat % len(cfgs)] if not quick else cfgs[0]
+            c["vops"] = ops
+            cases.append(c)
+            nstrat += 1
+    ctx.notes["voucher_forgery_kinds_executed"] = nstrat
     for i, t in enumerate(pairs):
         cases += concretise(t, cfgs[i % len(cfgs)], 1)
     ctx.log("%d cases (%d configurations)" % (len(cases), len(cfgs)))
